@@ -109,7 +109,8 @@ func init() {
 		[]kvp{{"a", `true`}, {"b", `false`}})
 	mergeEnd = len(catalogue)
 	initIntro() // intro.go: the introspection and nullability families come after the merge family
-	initFail()  // fail.go: the failure family comes last
+	initFail()  // fail.go: the failure family
+	initEnvelope() // envelope.go: readers of the whole operation context, texts that differ in letter case only
 }
 
 func mergeTexts() []string {
